@@ -4,21 +4,23 @@
    quantified over all schedules, all programs of ensure/reserve/[]/size/snapshot/snapshot[]/for_each/gc/time-passes,
    all thread counts, all block sizes and all (monotone) clock histories, 16-bit stamp wrap included.
 
-   Proved at full strength: stable addresses (c04_stable, c04_tables_only_grow), one element per index through any
-   published table now or later (c04_same_element + c04_reads_go_through_published_tables) and at the level of the
-   values returned to the callers (c04_results_same_element), the current table is never
-   freed (c04_current_table_alive), every block constructed exactly once (c04_constructed_once), the stamp arithmetic
-   (packing, expire incl. wrap), the slow-path ranges and the memory orders.
-   PARTIAL / REFUTED: the cooling period.  c04_cooling_partial and c04_snapshot_usable_partial hold under the proviso
-   `stale s = false` (no retire CAS succeeded against a head value re-read in a later 64 s unit than its own clock
-   read).  Without the proviso the statement is false of the model AND of /repo: c04_cooling_refuted (table freed 0 s
-   after being superseded, snapshot taken in that second already unusable; needs a 128 s stall of one retire),
-   c04_cooling_refuted_short_stall (2 s stall across a unit boundary => 63 s < 64 s).  Replayed on the real code by
-   checks/c04.py (directed schedules), signature cooling-stale-stamp.
-   NOT proved here (checked by the monitors on the implementation and, per explored program, by the model explorer's
-   end-of-life check): "every block is destroyed exactly once" (loser path + destructor) and "every table is freed
-   exactly once at death" need the block-ownership invariant over the ghost `bst`, which is stated in the model but
-   not carried through the proofs. *)
+   Everything in the property text is a theorem at full strength (no `_partial`, no `_refuted` left):
+   stable addresses (c04_stable, c04_tables_only_grow); one element per index (c04_same_element through any published
+   table now or later, c04_results_same_element for the values callers get, c04_reads_go_through_published_tables);
+   constructed exactly once (c04_constructed_once); while the vector is alive no block is destroyed twice, no visible
+   block is destroyed at all and every not-yet-destroyed block is either published or owned by exactly one thread inside
+   the slow path (c04_destroyed_at_most_once); at death every block has been constructed once and destroyed once and
+   every heap table deleted exactly once (c04_death, c04_table_frees); the installed table is never freed
+   (c04_current_table_alive); cooling period > 64 s for every clock history incl. gc() and stamp wrap (c04_cooling,
+   c04_snapshot_usable) - since fix 8cef5d9 (retire re-reads the clock in every round of its push loop; regenerated
+   target retry_new_head, reverting it breaks the translator) the former finding F4 is impossible: c04_no_stale_stamp.
+   Residual assumptions (all outside the model, listed in META): allocator never hands out an address that a stalled
+   thread still holds (no pointer ABA on _block_table/_head: a head word equal to the one loaded designates the same
+   node chain); sequentially consistent interleavings; a thread stalled for more than 64 s between obtaining a table
+   pointer and using it (inside one call, or through a snapshot older than 64 s) reads freed memory - that is the
+   documented contract of the time-based design and exactly what c04_snapshot_usable delimits.  A stall between the
+   clock read and the CAS within ONE round of the push loop is harmless (proved: the CAS only succeeds against the head
+   value loaded BEFORE that clock read, so every node below it was retired before the stamp). *)
 From Coq Require Import ZArith List Bool.
 Require Import Verif.Gen.Gen_cvector Verif.Conc.Machine Verif.CV.CVModel Verif.CV.CVProofs.
 Import ListNotations.
@@ -77,6 +79,31 @@ Print Assumptions c04_current_table_alive.
 Theorem c04_constructed_once : forall b t0 progs s, Reach b t0 progs s -> Forall (fun c => c = 1%nat) (bctor s).
 Proof. exact cv_constructed_once. Qed.
 Print Assumptions c04_constructed_once.
+
+(* while the vector is alive no block is destroyed twice, no block visible through the published table is destroyed,
+   and a block that is not destroyed is published or owned by exactly one thread inside the slow path *)
+Theorem c04_destroyed_at_most_once : forall b t0 progs s blk c, Reach b t0 progs s -> nth_error (bdtor s) blk = Some c ->
+  (c <= 1)%nat /\ (In blk (live s) -> c = 0%nat) /\
+  (c = 0%nat -> In blk (live s) \/ exists t th, nth_error (threads s) t = Some th /\ slow_nt (tpc th) <> None /\
+                                         nth_error (bst s) blk = Some (BSpec t)).
+Proof. exact cv_destroyed_at_most_once. Qed.
+Print Assumptions c04_destroyed_at_most_once.
+
+(* when the vector dies (every call has returned; `destroy` = ~ConcurrentVector): every block ever created - published
+   or speculatively created by a loser - has been constructed exactly once and destroyed exactly once, and every heap
+   block table (published, retired or speculative) has been deleted exactly once *)
+Theorem c04_death : forall b t0 progs s, Reach b t0 progs s -> all_done s = true ->
+  Forall (fun c => c = 1%nat) (bctor (destroy s)) /\ Forall (fun c => c = 1%nat) (bdtor (destroy s)) /\
+  length (bdtor (destroy s)) = length (bctor (destroy s)) /\
+  forall k ti, nth_error (tables (destroy s)) k = Some ti -> k <> 0%nat -> tfrees ti = 1%nat.
+Proof. exact cv_death. Qed.
+Print Assumptions c04_death.
+
+(* while alive: a table is deleted at most once, and only after it left the retire list or if it was never published *)
+Theorem c04_table_frees : forall b t0 progs s k ti, Reach b t0 progs s -> nth_error (tables s) k = Some ti -> k <> 0%nat ->
+  (tfrees ti <= 1)%nat /\ (tfrees ti = 1%nat <-> (tst ti = TFreed \/ tst ti = TDead)).
+Proof. exact cv_table_frees. Qed.
+Print Assumptions c04_table_frees.
 
 (* cooling period: a table is freed more than 64 s after the growth that superseded it, for every schedule and every
    clock history, gc() calls included, 16-bit stamp wrap included *)
@@ -161,6 +188,10 @@ Print Assumptions c04_memory_order_obligations.
 
 (* non-vacuity: a reachable state in which a table was retired, freed 128 s later by gc() (no stale stamp) and a
    too-old snapshot found it freed *)
+Example c04_death_example :
+  exists s, Reach 0 1000000 death_progs s /\ all_done s = true /\ (0 < sum (bdtor s))%nat /\ (2 <= length (tl (tables s)))%nat.
+Proof. exact cv_death_example. Qed.
+
 Example c04_cooling_example :
   exists s, Reach 0 1000000 ok_progs s /\ stale s = false /\
     (exists k ti r f, nth_error (tables s) k = Some ti /\ tsup ti = Some r /\ tfreed ti = Some f /\ f - r = 128) /\
